@@ -139,10 +139,65 @@ def frame_enter_leave(R, R0):
     return links_unchanged(R, R0)
 
 
+@contract("secsgem.common.state_machine:State._activate", "C18")
+class Activate:
+    """_activate(source) makes exactly `entered` active (this state and the ancestors that do not contain the source), fires
+    nothing - for every hierarchy.  The recursive call on the parent is used through this same contract."""
+
+    cases = None
+
+    def inputs():
+        return {"self": Elem(STATES), "source": Elem(STATES, optional=True)}
+
+    def requires(self):
+        R = region_of(self)
+        return valid_tree(R) and lemmas(R)
+
+    def raises():
+        return {}
+
+    modifies = {"region(self)._active": Bool}
+
+    def ensures(self, source, old):
+        R, R0 = region_of(self), region_of(old.self)
+        n = region_size(R)
+        return {"exactly-the-entered-states-become-active": forall(0, n, lambda k: R[k]._active == (R0[k]._active or entered(R, self, source, k))),
+                "no-event": forall(0, n, lambda k: R[k].g_enter == R0[k].g_enter and R[k].g_leave == R0[k].g_leave),
+                "links-unchanged": links_unchanged(R, R0)}
+
+
+@contract("secsgem.common.state_machine:State._fire_enter", "C18")
+class FireEnter:
+    """_fire_enter(source) fires 'enter' exactly once on each state of `entered`, outermost first, and changes no active
+    flag (the handlers are call-outs, see StateEventsFire)."""
+
+    cases = None
+
+    def inputs():
+        return {"self": Elem(STATES), "source": Elem(STATES, optional=True)}
+
+    def requires(self):
+        R = region_of(self)
+        return valid_tree(R) and lemmas(R)
+
+    def raises():
+        return {}
+
+    modifies = {"region(self).g_enter": Int}
+
+    def ensures(self, source, old):
+        R, R0 = region_of(self), region_of(old.self)
+        n = region_size(R)
+        return {"enter-fired-once-on-each": forall(0, n, lambda k: R[k].g_enter == R0[k].g_enter + (1 if entered(R, self, source, k) else 0)),
+                "no-leave-event-no-flag-changed": forall(0, n, lambda k: R[k].g_leave == R0[k].g_leave and R[k]._active == R0[k]._active),
+                "links-unchanged": links_unchanged(R, R0)}
+
+
 @contract("secsgem.common.state_machine:State.enter", "C18")
 class Enter:
     """enter(source) activates exactly `entered` and fires 'enter' exactly once on each of them, nothing else - for every
-    hierarchy.  The recursive call on the parent is used through this same contract (the depth decreases)."""
+    hierarchy.  All flags are set (Activate) before the first handler runs (FireEnter): a handler that requests the next
+    transition - also the handler of an ancestor of the destination - finds the active states consistent (D33)."""
 
     cases = None
 
@@ -194,7 +249,9 @@ class Leave:
                 "links-unchanged": links_unchanged(R, R0)}
 
 
-Enter.uses = [IsWithin, Enter, StateEventsFire]
+Activate.uses = [IsWithin, Activate]
+FireEnter.uses = [IsWithin, FireEnter, StateEventsFire]
+Enter.uses = [Activate, FireEnter]
 Leave.uses = [IsWithin, Leave, StateEventsFire]
 
 
